@@ -13,7 +13,7 @@ UNIT = Unit(
     describe="go::compile::compile_cexpr_effect: a complex expression in effect position (value discarded) still emits exactly one Go statement "
              "when it is a call, a dyn-trait call or `go`; control-flow forms never reach its panic!; compile_go: `go e` is ONE go statement "
              "calling the closure's apply function with the closure as its only argument, or — for a plain function value — the function itself without arguments",
-    trusted=["the precondition `expr is not EMatch/EIf/EWhile` (the panic! arm) is NOT checked at the single call site in compile_aexpr_effect, which is outside the unit", "compile_cexpr is external (uninterpreted result); only the fact that a statement carrying its result is emitted is proved",
+    trusted=["FRAGMENT effect_of_cexpr: the ACExpr arm of compile_aexpr_effect (the single call site of compile_cexpr_effect; its precondition is discharged there); the recursive call, compile_while and compile_match_branches (with its branch closure) are stubs with arbitrary results", "compile_cexpr is external (uninterpreted result); only the fact that a statement carrying its result is emitted is proved",
              "PARTIAL: compile_go's `.expect(..)` (a closure type without an apply function: compiler-internal invariant) is not claimed unreachable (assume(false), listed)"],
     items=goast_types + [
         Adt(file=ANF, kw="enum", name="ImmExpr", rules=["attrs"]),
@@ -39,5 +39,20 @@ UNIT = Unit(
            contract="ensures is_go_of(goenv, *closure, r),",
            ghost=[("let call_expr = compile_cexpr(goenv, &apply_call);", "line-after", "proof { assert(call_expr == go_call_of(goenv, &apply_call)); }"),
                   ("?return Stmt::Go {", "line-before", "proof { assert(go_call_of(goenv, &direct_call) == go_call_of(goenv, &direct_call)); }")]),
+        Raw(path="contracts/effectarm.shim.rs"),
+        Fn(file=G + "compile.rs", name="compile_aexpr_effect", rename="effect_of_cexpr", ret="r",
+           cut_from=re.compile(r"AExpr::ACExpr \{ expr \} => match expr \{"), cut_inside=True, cut_before="@block-end", cut_tail="}\n",
+           sig="fn effect_of_cexpr(goenv: &GlobalGoEnv, gensym: &Gensym, expr: CExpr) -> Vec<Stmt> { match expr",
+           pre_rewrites=[(re.compile(r"compile_match_branches\(goenv, scrutinee\.as_ref\(\), &arms, &default, \|branch\| \{\s*compile_aexpr_effect\(goenv, gensym, branch\)\s*\}\)"),
+                          "compile_match_effect(goenv, gensym, box_as_ref_imm(&scrutinee), &arms, &default)", 1)],
+           rewrites=[(re.compile(r"compile_aexpr_effect\(goenv, gensym, \*(\w+)\)"), r"compile_aexpr_effect(goenv, gensym, unbox_aexpr(\1))", "*"),
+                     (re.compile(r"compile_while\(goenv, gensym, \*(\w+), \*(\w+)\)"), r"compile_while(goenv, gensym, unbox_aexpr(\1), unbox_aexpr(\2))", "*"),
+                     (re.compile(r"vec!\[(Stmt::If \{.*?\})\]", re.S), r"vec_one_stmt(\1)", "*")],
+           obligation="a complex expression in statement position: the control-flow forms go to their own lowering, everything else to compile_cexpr_effect — "
+                      "whose precondition (not a control-flow form) holds at this, its only call site; an effectful expression (call, dyn call, go) yields exactly "
+                      "one statement carrying it",
+           contract="""ensures cexpr_is_effect(expr) ==> r@.len() == 1,
+            (expr is ECall || expr is EDynCall) ==> r@[0] == Stmt::Expr(go_call_of(goenv, &expr)),
+            expr matches CExpr::EGo { closure, .. } ==> is_go_of(goenv, *closure, r@[0]),"""),
     ],
 )
